@@ -25,11 +25,22 @@ import (
 
 func (e *engine) runC29() {
 	e.rep.Rule = "opener rule: the REAL trackedLink.trackLink run in both directions over fake mounted links for pairs of real key IDs and adversarial IDs (shared prefixes, one a byte-prefix of the other, leading zero bytes, different lengths, equal); subscription handle: random deterministic schedules of add-handler / remove-handler / release / publish / run-one-delivery-goroutine on a real subscription (delivery goroutines held at the gate hook) plus a concurrent release-while-publishing stress; Execute announcements: random batches of subscribe / release / new peer / peer end applied at the loop top, in the hold-break and after the sweep of a gate-stepped real Execute loop, beliefs of fake peers compared after every sweep; distinct = distinct op line"
-	e.rep.Require("opens.1", "opens.0", "opens.equal", "sub.calls", "sub.nocalls", "sub.release-pending", "sub.stress", "exec.step", "exec.release-before-announce", "exec.release-in-hold-break", "exec.parked")
+	e.rep.Require("opens.1", "opens.0", "opens.equal", "sub.calls", "sub.nocalls", "sub.release-pending", "sub.stress", "exec.step", "exec.release-before-announce", "exec.release-in-hold-break", "exec.parked",
+		"ctl.multi-identity", "ctl.history", "slow.release", "slow.subscribe", "sendq.below", "sendq.full", "sendq.beyond", "recv.step", "recv.reconnect", "recv.replace-live", "recv.close", "hist.release", "mesh.unsubscribe-received")
 	e.c29Opens()
 	e.c29Sub()
 	e.c29SubStress()
 	e.c29Exec()
+	e.c29Ctl()
+	e.c29Slow()
+	e.c29Recv()
+	// the belief monitor on meshes of real routers (every neighbour, incl. late ones, incl. a
+	// tuple that comes up again after a release made while it was down; releases RECEIVED by real routers)
+	e.runHistory("c29-late-link", 3, []string{"connect:0:1", "settle", "sub:1:c1", "sub:0:c1", "settle", "sub:2:c1", "connect:1:2", "settle", "rel:1:c1", "settle", "rel:0:c1", "rel:2:c1", "settle"}, 0, "hist.release")
+	e.runHistory("c29-reconnect-after-release", 3, []string{"sub:0:c1", "sub:1:c1", "sub:2:c1", "connect:0:1", "connect:1:2", "settle", "close:0", "waitclosed:0", "rel:0:c1", "waitswept:0:c1", "reopen:0", "settle"}, 0, "hist.release")
+	for h := 0; h < 2*e.a.Scale; h++ {
+		e.runHistory(fmt.Sprintf("c29-rand-h%d", h), 3+e.rng.Intn(3), nil, 10+e.rng.Intn(8), "hist.release")
+	}
 }
 
 // ---- opener rule ----
